@@ -369,3 +369,60 @@ def rlp_headers(ctx, config="all"):
     rep.analysed = {"build_config": config, "encoders_with_hand_built_header": n_sites, "evaluations": n_eval,
                     "widest_configuration": "%d,%d" % max(ctx.cfgs())}
     return rep
+
+
+DER_LEN_CONV = "<der::length::Length as core::convert::TryFrom<usize>>::try_from"
+
+
+def der_lengths(ctx, config="all"):
+    """R-CODEC/der-length: the DER decoder's length bound admits every length the encoder can produce.
+
+    Encoder: the interval of the usize that `value_len` converts into a `Length`.  Decoder: the usize `decode_value`
+    converts into the `Length` it compares `header.length` with (content longer than that is rejected as non
+    canonical).  Per configuration: decoder bound >= largest encoder length (a value with the top bit of a
+    byte-aligned width set needs BYTES + 1 content bytes, the sign byte)."""
+    from . import total_rule
+    rep = Report("R-CODEC/der-length", "DER: in every configuration the length bound decode_value compares header.length with "
+                 "is at least the largest content length value_len can report (intervals of the usize converted to "
+                 "der::Length on either side)")
+    prog = ctx.prog(config)
+    T = total_rule.totality(ctx, config)
+    enc = [k for k in prog.bodies if "support::der::" in k and k.endswith("::value_len") and "Uint<BITS, LIMBS>" in k]
+    dec = [k for k in prog.bodies if "support::der::" in k and k.endswith("::decode_value") and "Uint<BITS, LIMBS>" in k]
+    if len(enc) != 1 or len(dec) != 1:
+        rep.violation("missing", "src/support/der.rs", "value_len / decode_value of the DER integration not found (feature der off?)")
+        return rep
+
+    def conv_arg(key, cfg):
+        a = T.ai(key, cfg)
+        out = []
+        for bi, t in a.v.calls():
+            if (ir.callee_name(t["fn"]) or "") == DER_LEN_CONV and t["args"]:
+                st = a.state_before_term(bi)
+                if st is not None:
+                    out.append(a.eval_operand(st, t["args"][0])[0])
+        return out
+    n = 0
+    bad = None
+    undecided = False
+    for cfg in ctx.cfgs():
+        e, d = conv_arg(enc[0], cfg), conv_arg(dec[0], cfg)
+        if len(e) != 1 or len(d) != 1 or e[0] is None or d[0] is None:
+            undecided = True
+            continue
+        n += 1
+        if d[0][0] < e[0][1]:
+            bad = bad or (cfg, e[0], d[0])
+    be, bd = prog.bodies[enc[0]], prog.bodies[dec[0]]
+    where = "%s:%s" % (bd["file"], bd["line"])
+    if bad:
+        cfg, e, d = bad
+        rep.violation("decode_value|length-bound", where, "in configuration (%d,%d) value_len can report up to %d content bytes "
+                      "but decode_value rejects everything longer than %d: a canonical encoding (sign byte included) does "
+                      "not decode" % (cfg[0], cfg[1], e[1], d[0]))
+    elif n:
+        rep.ok("decode_value|length-bound", where, "decoder bound >= largest encoder length in %d configurations" % n)
+    else:
+        rep.ok("decode_value|length-bound", where, "the two lengths are not converted through one Length::try_from each: not decided")
+    rep.analysed = {"build_config": config, "configurations_compared": n, "some_undecided": undecided}
+    return rep
